@@ -527,6 +527,67 @@ pub fn gen_doc(rng: &mut Rng, cfg: &GenCfg, want: Option<&'static str>) -> ZincD
     ZincDoc { text: em.out, tokens: em.tokens, header_end, rows, kind }
 }
 
+/// Length ladder documents ("any length"): one construct repeated n times without nesting.
+pub fn long_doc(shape: &str, n: usize) -> Vec<u8> {
+    let rep = |unit: &str, sep: &str| -> String {
+        let mut s = String::with_capacity(n * (unit.len() + sep.len()));
+        for i in 0..n {
+            if i > 0 {
+                s.push_str(sep);
+            }
+            s.push_str(unit);
+        }
+        s
+    };
+    match shape {
+        "flat-list" => format!("[{}]", rep("1", ",")),
+        "flat-dict" => {
+            let mut s = String::from("{");
+            for i in 0..n {
+                s.push_str(&format!("a{i}:1 "));
+            }
+            s.push('}');
+            s
+        }
+        "many-rows" => format!("ver:\"3.0\"\na,b\n{}\n", rep("1,\"x\"", "\n")),
+        "many-cols" => {
+            let cols: Vec<String> = (0..n).map(|i| format!("c{i}")).collect();
+            format!("ver:\"3.0\"\n{}\n{}\n", cols.join(","), rep("1", ","))
+        }
+        "many-meta" => {
+            let mut s = String::from("ver:\"3.0\"");
+            for i in 0..n {
+                s.push_str(&format!(" m{i}"));
+            }
+            s.push_str("\na\n1\n");
+            s
+        }
+        "long-str" => format!("\"{}\"", rep("a", "")),
+        "long-str-escapes" => format!("\"{}\"", rep("\\u00e9", "")),
+        "long-number" => rep("1", ""),
+        "long-fraction" => format!("0.{}", rep("3", "")),
+        "long-uri" => format!("`{}`", rep("a", "")),
+        "long-ref" => format!("@{}", rep("a", "")),
+        "long-unit" => format!("1{}", rep("m", "")),
+        "json-flat-list" => format!("[{}]", rep("1", ",")),
+        "json-flat-dict" => {
+            let items: Vec<String> = (0..n).map(|i| format!("\"a{i}\":1")).collect();
+            format!("{{{}}}", items.join(","))
+        }
+        "json-long-str" => format!("\"{}\"", rep("a", "")),
+        "json-many-rows" => format!("{{\"_kind\":\"grid\",\"meta\":{{\"ver\":\"3.0\"}},\"cols\":[{{\"name\":\"a\"}}],\"rows\":[{}]}}", rep("{\"a\":1}", ",")),
+        // filters
+        "or-chain" => rep("a", " or "),
+        "and-chain" => rep("a", " and "),
+        "eq-or-chain" => rep("id==@a", " or "),
+        "path-chain" => rep("a", "->"),
+        "filter-long-str" => format!("a == \"{}\"", rep("b", "")),
+        "filter-long-id" => rep("a", ""),
+        _ => String::new(),
+    }
+    .into_bytes()
+}
+
 /// Pure nesting ladder documents for the stack-depth dimension.
 pub fn nest_doc(shape: &str, depth: usize, closed: bool) -> Vec<u8> {
     let mut s = Vec::new();
